@@ -101,6 +101,9 @@ pub struct Finding {
     /// reproducer (path relative to /verif)
     #[serde(default)]
     pub reproducer: Option<String>,
+    /// further reproducers; the finding is active if any of them still reproduces
+    #[serde(default)]
+    pub reproducers: Vec<String>,
     /// domain name the reproducer belongs to
     #[serde(default)]
     pub domain: Option<String>,
@@ -373,7 +376,10 @@ pub fn run_prop(prop: &dyn Prop, tier: Tier, seed: u64) -> i32 {
     // 1. known findings: replay reproducers, activate those that still reproduce
     for f in findings.iter().filter(|f| f.status == "known") {
         let mut reproduced = false;
-        if let Some(rp) = &f.reproducer {
+        for rp in f.reproducer.iter().chain(f.reproducers.iter()) {
+            if reproduced {
+                break;
+            }
             let path = verif_root().join(rp);
             if let Ok(s) = std::fs::read_to_string(&path) {
                 if let Ok(v) = serde_json::from_str::<Value>(&s) {
